@@ -12,7 +12,11 @@ import (
 
 // A Scenario is one generated case (DESIGN Appendix C). Plain JSON-serialisable.
 type Scenario struct {
-	Transport  string   // memTCP | memTLS | memPacket | realUDP | realTCP
+	// memTCP | memTLS | memPacket | realUDP | realTCP: the harness makes the socket, the server is
+	// started with ActivateAndServe. lnsUDP | lnsTCP (round 8): the server is started with
+	// ListenAndServe on 127.0.0.1:0 - the library makes the socket and overwrites Server.PacketConn /
+	// Server.Listener itself, at every start; nothing below the server can be observed
+	Transport  string
 	Clients    []Client // client j (1-based) = connection j for stream transports
 	Trigger    string   // event (pattern) at which the controller calls Shutdown
 	FallbackMs int      // Shutdown is called anyway after this long without the trigger ("trigger-fallback")
@@ -40,15 +44,27 @@ type Restart struct {
 	// complete (""): run 1 is over - Shutdown has returned (nil or, when its context expired, the
 	// context's error), the held handlers were released, the serve call has returned, nothing leaked.
 	// drain: the second start follows at once on a Shutdown that gave up on its context, while the
-	// handlers of run 1 are still held (they are released at Release1)
+	// handlers of run 1 are still held (they are released at Release1).
+	// shutting (ListenAndServe transports only - there the library itself replaces the sockets in the
+	// Server value): the second start is made while the Shutdown call of run 1 has not returned yet -
+	// it is waiting for a held handler of run 1. The start is repeated while it answers "server already
+	// started" (Shutdown 1 has not got to the flag yet). Shutdown 1 returns at Release1: because the
+	// handlers of run 1 are let go (Ctx background) or because its context is cancelled (Ctx expireAt,
+	// CtxAt release1; the handlers are then let go when run 2 is over). Whatever Shutdown 1 does when
+	// it returns must leave run 2 alone
 	When string
-	Reqs []string // handler mode per request of run 2: fast | block (reply, wait for release2) | late (wait, reply); empty = one fast request
+	// lnsUDP | lnsTCP: the transport of the second run when it differs from the first ("" = the same)
+	Transport string   `json:",omitempty"`
+	Reqs      []string // handler mode per request of run 2: fast | block (reply, wait for release2) | late (wait, reply); empty = one fast request
+	// Hijack per request of run 2 ("" | before | after, see Req.Hijack); shorter than Reqs = not hijacked
+	Hijack []string `json:",omitempty"`
 	// when Shutdown of run 2 is called: entered ("": every request of run 2 has reached its handler,
 	// the fast ones are answered) | sent (the requests are on their way) | started (right after the start notification)
 	At     string
 	CtxAPI bool // ShutdownContext(context.Background()) instead of Shutdown()
 	HoldMs int  // how long the controller gives Shutdown 2 to return (it must not, while a handler of run 2 is held) before release2
-	// drain: when the held handlers of run 1 are released: started2 (run 2 has just started) |
+	// drain / shutting: when the held handlers of run 1 are released (shutting with a context: when
+	// the context of Shutdown 1 is cancelled): started2 (run 2 has just started) |
 	// entered2 (run 2's handlers are running, before Shutdown 2) | held2 (Shutdown 2 has been called
 	// and is waiting for run 2's handlers) | after2 (run 2 is over)
 	Release1 string
@@ -77,6 +93,28 @@ func (s Scenario) drain() bool {
 	return s.Ctx == "expired" || (s.Ctx == "expireAt" && s.CtxAt != "release")
 }
 
+// shutting reports whether the second start is to happen while the Shutdown call of run 1 is still
+// waiting (see Restart.When).
+func (s Scenario) shutting() bool {
+	if !s.hasRestart() || s.Restart.When != "shutting" || !s.lns() {
+		return false
+	}
+	for _, m := range s.Misuse {
+		if m.Op == "secondShutdown" {
+			return false
+		}
+	}
+	return s.Ctx == "background" || (s.Ctx == "expireAt" && s.CtxAt == "release1")
+}
+
+// transport2 is the transport of the second run.
+func (s Scenario) transport2() string {
+	if s.lns() && strings.HasPrefix(s.Restart.Transport, "lns") {
+		return s.Restart.Transport
+	}
+	return s.Transport
+}
+
 // restartReqs returns the handler modes of the second run's requests.
 func (s Scenario) restartReqs() []string {
 	if len(s.Restart.Reqs) == 0 {
@@ -89,6 +127,17 @@ func (s Scenario) restartReqs() []string {
 // "restart during drain" into a restart after run 1 is over.
 const knownRestartDrain = "restart-during-drain"
 
+// knownListenRestart (round 8, remark 1): ShutdownContext closes Server.PacketConn when it returns,
+// and reads that field then, without the lock; a ListenAndServe("udp") made while it was waiting has
+// put the socket of the NEXT run there. While it is live a drawn restart(shutting) whose second run
+// is on lnsUDP becomes a restart after run 1 is over.
+const knownListenRestart = "shutdown-closes-socket-of-next-listen"
+
+// knownSdInsideFailingStart (round 8, remark 3): a Shutdown that gets in between the start's unlock
+// and serveUDP's "Reader has no ReadPacketConn" return waits for ever. While it is live the
+// generator makes that Shutdown wait for the start to return (Sd = "").
+const knownSdInsideFailingStart = "shutdown-inside-failing-start"
+
 type Client struct {
 	Reqs     []Req
 	Close    string // end (keeps the conn until teardown) | afterRecv | afterSend (closes without reading the last reply)
@@ -100,17 +149,34 @@ type Client struct {
 type Req struct {
 	Mode  string // fast: reply, return | block: reply, wait, return | late: wait, reply, return
 	Until string // event that ends the wait; "release" always ends it too
+	// Hijack: the handler takes the connection over with ResponseWriter.Hijack() - before it does
+	// anything else ("before") or right after it has written its reply ("after") - goes on as Mode
+	// says and closes the connection itself (ResponseWriter.Close) just before it returns: the
+	// zone-transfer pattern. The handler has been started all the same: Shutdown waits for it (I1),
+	// its reply is delivered (I2); the server serves nothing more on that connection.
+	Hijack string `json:",omitempty"`
 }
 
 type Misuse struct {
 	Op string // shutdownBeforeStart | failedStart | secondStart | secondShutdown | restartAfterShutdown
 	At string // event at which the controller performs it (ignored for the first and last); failedStart: the kind of failure
+	// failedStart: a Shutdown that runs concurrently with the start that fails. It is called (on a
+	// goroutine of its own) from inside a callback the library makes during that start - decorate:
+	// DecorateReader, i.e. inside serveUDP before the serve loop exists | notify: NotifyStartedFunc,
+	// i.e. the serve loop is about to make the accept / read that fails - and the callback returns
+	// only when that Shutdown has done its locked part (observed on the in-memory sockets) or a few
+	// milliseconds later. "" = Shutdown only after the start has returned. Neither call may block.
+	Sd string `json:",omitempty"`
 }
 
 func (s Scenario) stream() bool {
-	return s.Transport == "memTCP" || s.Transport == "memTLS" || s.Transport == "realTCP"
+	return s.Transport == "memTCP" || s.Transport == "memTLS" || s.Transport == "realTCP" || s.Transport == "lnsTCP"
 }
-func (s Scenario) spied() bool { return s.Transport != "realUDP" } // I/O-level events available
+func (s Scenario) lns() bool       { return strings.HasPrefix(s.Transport, "lns") }             // started with ListenAndServe
+func (s Scenario) spied() bool     { return s.Transport != "realUDP" && !s.lns() }              // I/O-level events available
+func (s Scenario) loopback() bool  { return strings.HasPrefix(s.Transport, "real") || s.lns() } // kernel sockets on 127.0.0.1
+func (s Scenario) kernelUDP() bool { return s.Transport == "realUDP" || s.Transport == "lnsUDP" }
+func (s Scenario) kernelTCP() bool { return s.Transport == "realTCP" || s.Transport == "lnsTCP" }
 
 // postShutdown reports whether an event can only happen once Shutdown has been called.
 func postShutdown(ev string) bool {
@@ -124,7 +190,9 @@ func postShutdown(ev string) bool {
 func (s Scenario) reachable() []string {
 	out := []string{"srv.started"}
 	if s.stream() {
-		out = append(out, "lis.accept.enter")
+		if s.spied() {
+			out = append(out, "lis.accept.enter")
+		}
 	} else {
 		out = append(out, "reader.enter(pc,1)")
 		if s.spied() {
@@ -140,7 +208,10 @@ func (s Scenario) reachable() []string {
 		}
 		out = append(out, fmt.Sprintf("client(%d).dial", j))
 		if s.stream() {
-			out = append(out, fmt.Sprintf("lis.accept.return(%d)", j), "serveconn.start", fmt.Sprintf("reader.enter(%d,1)", j))
+			if s.spied() {
+				out = append(out, fmt.Sprintf("lis.accept.return(%d)", j))
+			}
+			out = append(out, "serveconn.start", fmt.Sprintf("reader.enter(%d,1)", j))
 			if s.spied() && s.Transport != "memTLS" {
 				out = append(out, fmt.Sprintf("conn(%d).setReadDeadline.enter(future)", j), fmt.Sprintf("conn(%d).setReadDeadline(future)", j), fmt.Sprintf("conn(%d).read.enter", j))
 			}
@@ -183,6 +254,10 @@ func (s Scenario) reachable() []string {
 			}
 			out = append(out, fmt.Sprintf("handler.exit(%d,%d)", j, q))
 			if s.stream() {
+				if r.Hijack != "" { // the connection is the handler's now, and the handler has closed it
+					stopped = true
+					break
+				}
 				out = append(out, fmt.Sprintf("reader.enter(%d,%d)", j, q+1))
 			}
 		}
@@ -211,37 +286,41 @@ var transportsAll = []string{"memTCP", "memTCP", "memTLS", "memPacket", "memPack
 func genMem(t *rapid.T) Scenario  { return genScenario(t, transportsMem) }
 func genReal(t *rapid.T) Scenario { return genScenario(t, transportsReal) }
 
-// genScenario draws a scenario; when it contains a restart, the second run is drawn last (so that
-// the draws of everything else do not depend on it).
+// transportsLns: the server makes its own sockets (ListenAndServe).
+var transportsLns = []string{"lnsUDP", "lnsUDP", "lnsTCP"}
+
+// genScenario draws a scenario; when it contains a restart, the second run is drawn last but one
+// and the round-8 dimensions last (so that the draws of everything else do not depend on them).
 func genScenario(t *rapid.T, transports []string) Scenario {
 	s := genCore(t, transports)
 	if s.hasRestart() {
 		drawRestart(t, &s)
 	}
+	drawExtras(t, &s)
 	return s
 }
 
 // genRestart (sub scenario-restart): every case restarts the same Server value, and in 70 % of the
 // cases the first run ends the way that leaves most state behind: a handler is held when Shutdown
 // is called and the context of ShutdownContext expires before the handler is released.
-func genRestart(t *rapid.T) Scenario {
-	s := genCore(t, transportsAll)
+func genRestart(t *rapid.T) Scenario { return genRestartOn(t, transportsAll) }
+
+// genListen (sub scenario-listen): the same through ListenAndServe; one case in four is an ordinary
+// scenario (no restart unless drawn).
+func genListen(t *rapid.T) Scenario {
+	if rapid.IntRange(0, 3).Draw(t, "plainListen") == 0 {
+		return genScenario(t, transportsLns)
+	}
+	return genRestartOn(t, transportsLns)
+}
+
+func genRestartOn(t *rapid.T, transports []string) Scenario {
+	s := genCore(t, transports)
 	if !s.hasRestart() {
 		s.Misuse = append(s.Misuse, Misuse{Op: "restartAfterShutdown"})
 	}
 	if rapid.IntRange(0, 9).Draw(t, "giveUp") < 7 {
-		if len(s.Clients) == 0 {
-			s.Clients = append(s.Clients, Client{Close: "end"})
-		}
-		c := &s.Clients[0]
-		c.StartAt = ""
-		if len(c.Reqs) == 0 {
-			c.Reqs = append(c.Reqs, Req{})
-		}
-		c.Reqs[0] = Req{Mode: rapid.SampledFrom([]string{"block", "late"}).Draw(t, "heldMode"), Until: "release"}
-		if rapid.IntRange(0, 3).Draw(t, "keepTrigger") > 0 {
-			s.Trigger = "handler.enter(1,1)"
-		}
+		holdFirst(t, &s)
 		s.CtxAPI = false
 		s.Ctx = rapid.SampledFrom([]string{"expired", "expireAt", "expireAt"}).Draw(t, "ctxGiveUp")
 		if s.Ctx == "expireAt" {
@@ -256,14 +335,46 @@ func genRestart(t *rapid.T) Scenario {
 		}
 	}
 	drawRestart(t, &s)
+	drawExtras(t, &s)
 	return s
 }
 
-// drawRestart draws the second run and, for a restart during drain, removes from the first run
-// what cannot be combined with it (see Scenario.drain).
+// holdFirst makes request (1,1) one whose handler is held until the controller lets go, and (three
+// times out of four) Shutdown is called when that handler has been entered.
+func holdFirst(t *rapid.T, s *Scenario) {
+	if len(s.Clients) == 0 {
+		s.Clients = append(s.Clients, Client{Close: "end"})
+	}
+	c := &s.Clients[0]
+	c.StartAt = ""
+	if len(c.Reqs) == 0 {
+		c.Reqs = append(c.Reqs, Req{})
+	}
+	c.Reqs[0] = Req{Mode: rapid.SampledFrom([]string{"block", "late"}).Draw(t, "heldMode"), Until: "release"}
+	if rapid.IntRange(0, 3).Draw(t, "keepTrigger") > 0 {
+		s.Trigger = "handler.enter(1,1)"
+	}
+}
+
+func dropMisuse(s *Scenario, op string) {
+	var ms []Misuse
+	for _, m := range s.Misuse {
+		if m.Op != op {
+			ms = append(ms, m)
+		}
+	}
+	s.Misuse = ms
+}
+
+// drawRestart draws the second run and, for a restart during drain / during Shutdown, removes from
+// the first run what cannot be combined with it (see Scenario.drain, Scenario.shutting).
 func drawRestart(t *rapid.T, s *Scenario) {
 	var rs Restart
-	rs.When = rapid.SampledFrom([]string{"complete", "drain"}).Draw(t, "restartWhen")
+	whens := []string{"complete", "drain"}
+	if s.lns() {
+		whens = []string{"complete", "drain", "shutting", "shutting"}
+	}
+	rs.When = rapid.SampledFrom(whens).Draw(t, "restartWhen")
 	if rs.When == "drain" && pbt.Known(knownRestartDrain) {
 		pbt.Excluded(knownRestartDrain)
 		rs.When = "complete"
@@ -274,7 +385,22 @@ func drawRestart(t *rapid.T, s *Scenario) {
 	rs.At = rapid.SampledFrom([]string{"entered", "entered", "entered", "sent", "started"}).Draw(t, "restartAt")
 	rs.CtxAPI = rapid.Bool().Draw(t, "restartCtxAPI")
 	rs.HoldMs = rapid.SampledFrom([]int{2, 5, 10, 20}).Draw(t, "restartHold")
-	if rs.When == "drain" {
+	if s.lns() && rapid.IntRange(0, 2).Draw(t, "restartSwitch") == 0 {
+		// the Server value changes its transport: the field of the other kind keeps the (closed) socket of run 1
+		rs.Transport = map[string]string{"lnsUDP": "lnsTCP", "lnsTCP": "lnsUDP"}[s.Transport]
+	}
+	if rs.When == "shutting" {
+		eff2 := s.Transport
+		if rs.Transport != "" {
+			eff2 = rs.Transport
+		}
+		if eff2 == "lnsUDP" && pbt.Known(knownListenRestart) {
+			pbt.Excluded(knownListenRestart)
+			rs.When = "complete"
+		}
+	}
+	switch rs.When {
+	case "drain":
 		rs.Release1 = rapid.SampledFrom([]string{"started2", "entered2", "held2", "held2", "after2"}).Draw(t, "release1")
 		if s.Ctx == "background" {
 			s.Ctx, s.CtxAPI = "expired", false
@@ -282,22 +408,92 @@ func drawRestart(t *rapid.T, s *Scenario) {
 		if s.Ctx == "expireAt" && s.CtxAt == "release" {
 			s.CtxAt = "shutdown.call"
 		}
-		var ms []Misuse
-		for _, m := range s.Misuse {
-			if m.Op != "secondShutdown" {
-				ms = append(ms, m)
-			}
+		dropMisuse(s, "secondShutdown")
+	case "shutting":
+		rs.Release1 = rapid.SampledFrom([]string{"started2", "entered2", "entered2", "held2", "held2", "after2"}).Draw(t, "release1")
+		// Shutdown 1 must still be waiting when the second start is made
+		holdFirst(t, s)
+		if rapid.Bool().Draw(t, "shuttingCtx") {
+			s.Ctx, s.CtxAt, s.CtxAPI = "expireAt", "release1", false
+		} else {
+			s.Ctx, s.CtxAt, s.CtxAPI = "background", "", rapid.Bool().Draw(t, "shuttingCtxAPI")
 		}
-		s.Misuse = ms
+		dropMisuse(s, "secondShutdown")
 	}
 	s.Restart = rs
+}
+
+// drawExtras draws the dimensions that were added in round 8, after everything else:
+// handlers that hijack their connection (first and second run), and a Shutdown that is concurrent
+// with a start that fails.
+func drawExtras(t *rapid.T, s *Scenario) {
+	den := 4 // one request in four on a stream transport
+	if !s.stream() {
+		den = 10 // a no-op for the library there, but a legal call
+	}
+	for ji := range s.Clients {
+		for qi := range s.Clients[ji].Reqs {
+			if rapid.IntRange(1, den).Draw(t, "hijackOn") == 1 {
+				s.Clients[ji].Reqs[qi].Hijack = rapid.SampledFrom([]string{"before", "before", "after"}).Draw(t, "hijack")
+			}
+		}
+	}
+	if s.hasRestart() {
+		any := false
+		hj := make([]string, len(s.Restart.Reqs))
+		for i := range hj {
+			if rapid.IntRange(1, den).Draw(t, "hijackOn2") == 1 {
+				hj[i] = rapid.SampledFrom([]string{"before", "before", "after"}).Draw(t, "hijack2")
+				any = true
+			}
+		}
+		if any {
+			s.Restart.Hijack = hj
+		}
+	}
+	for i := range s.Misuse {
+		m := &s.Misuse[i]
+		if m.Op != "failedStart" {
+			continue
+		}
+		switch rapid.IntRange(0, 3).Draw(t, "failSd") {
+		case 2:
+			m.Sd = "decorate"
+			if !contains(sdDecorateKinds, m.At) {
+				m.At = rapid.SampledFrom(sdDecorateKinds).Draw(t, "failSdKind")
+			}
+		case 3:
+			m.Sd = "notify"
+			if !contains(sdNotifyKinds, m.At) {
+				m.At = rapid.SampledFrom(sdNotifyKinds).Draw(t, "failSdKind")
+			}
+		}
+		if m.Sd == "decorate" && m.At == "readerWithoutPacketConn" && pbt.Known(knownSdInsideFailingStart) {
+			pbt.Excluded(knownSdInsideFailingStart)
+			m.Sd = ""
+		}
+	}
+}
+
+// failing starts during which the library calls DecorateReader (serveUDP is reached) / NotifyStartedFunc
+// (a serve loop is reached)
+var sdDecorateKinds = []string{"readerWithoutPacketConn", "readerWithoutPacketConn", "closedPacketConn", "permanentReadErr", "timeoutNotTemporaryRead"}
+var sdNotifyKinds = []string{"closedPacketConn", "permanentReadErr", "timeoutNotTemporaryRead", "closedMemListener", "closedListener", "permanentAcceptErr", "timeoutNotTemporaryAccept"}
+
+func contains(l []string, x string) bool {
+	for _, y := range l {
+		if x == y {
+			return true
+		}
+	}
+	return false
 }
 
 func genCore(t *rapid.T, transports []string) Scenario {
 	var s Scenario
 	s.Transport = rapid.SampledFrom(transports).Draw(t, "transport")
 	s.MaxTCP = rapid.SampledFrom([]int{-1, -1, -1, 0, 0, 1, 2, 128}).Draw(t, "maxTCP")
-	if s.Transport != "realUDP" {
+	if s.spied() {
 		for i, n := 0, rapid.SampledFrom([]int{0, 0, 0, 1, 2, 3}).Draw(t, "tempErrs"); i < n; i++ {
 			s.TempErrs = append(s.TempErrs, rapid.SampledFrom([]string{"tempNotTimeout", "tempNotTimeout", "tempTimeout"}).Draw(t, "tempErrKind"))
 		}
@@ -354,7 +550,7 @@ func genCore(t *rapid.T, transports []string) Scenario {
 		}
 	}
 	reach := s.reachable()
-	if s.Transport != "realUDP" && rapid.IntRange(0, 4).Draw(t, "tempErrLate") == 0 {
+	if s.spied() && rapid.IntRange(0, 4).Draw(t, "tempErrLate") == 0 {
 		s.TempErrAt = rapid.SampledFrom(reach).Draw(t, "tempErrAt")
 	}
 	// trigger
@@ -471,6 +667,16 @@ func genCore(t *rapid.T, transports []string) Scenario {
 // I/O boundaries allow: the goroutine that produced ev is held until Shutdown has done the step
 // that is supposed to stop it.
 func pinFor(s Scenario, ev string) (memnet.Wait, bool) {
+	w, ok := pinFor0(s, ev)
+	if ok && s.lns() && w.For != "shutdown.call" {
+		// nothing below the server is observable: "release" is logged HoldMs after shutdown.call,
+		// when Shutdown has long done its locked part
+		w.For = "release"
+	}
+	return w, ok
+}
+
+func pinFor0(s Scenario, ev string) (memnet.Wait, bool) {
 	var j, q int
 	switch {
 	case s.stream() && scan(ev, "reader.enter(%d,%d)", &j, &q):
